@@ -78,7 +78,7 @@ type Gen struct {
 	modules             map[string]bool
 	Panics              int
 	boundaryStartUsed   bool
-	quiet               bool // suppress per-field hostility (multi-entry messages must have a chance to succeed)
+	quiet               bool             // suppress per-field hostility (multi-entry messages must have a chance to succeed)
 	script              []func() *eng.Tx // follow-up steps queued by a scenario generator; drained before random choice
 }
 
